@@ -7,7 +7,9 @@ goroutine per snapshot element, `wg.Wait()`), then `go bgHandlers.dispatch` (det
 foreground set to completion.  `h_001` (an internal handler of the welcome line) dispatches
 CONNECTED to the foreground CONNECTED handlers, nested, before it returns.  `Close` may begin at
 any time: the drain loop then discards queued lines, `runLoop` leaves when it is between lines, and
-DISCONNECTED is dispatched only after `runLoop` has left.
+DISCONNECTED is dispatched only after `runLoop` has left.  Other goroutines dispatch events of their own on the same
+handler sets meanwhile - REGISTER from the caller of `Connect`, while the event loop is already reading - and each
+`hSet.dispatch` waits for the handlers IT started, with a wait group of its own (`otherSpawn`, `otherLeave`).
 
 Handlers are not given programs: the scheduler (any enabled label) decides when each spawned handler
 enters and leaves, a handler may panic (the deferred `Recover` turns that into a normal return, so
@@ -52,6 +54,7 @@ structure St where
   applied : Nat := 0                       -- number of lines whose internal phase has completed
   closing : Bool := false                  -- a Close has cancelled the context and is draining
   discFired : Bool := false
+  other : Nat := 0                         -- handlers of dispatches made by OTHER goroutines on the same handler sets that are still running (REGISTER from Connect's caller, DISCONNECTED from a closer of an earlier connection): each dispatch joins its own handlers only
   log : List Obs := []                     -- ghost: observable history, oldest first
 deriving Repr
 
@@ -73,6 +76,8 @@ inductive Label
   | discard                                -- the drain loop takes a line from conn.in
   | loopExit                               -- runLoop sees the cancelled context while in select
   | fireDisc                               -- Close, after wg.Wait, dispatches DISCONNECTED; a handler starts
+  | otherSpawn (n : Nat)                   -- another goroutine dispatches an event of its own on the same sets: n handlers start
+  | otherLeave                             -- one of them returns
 
 def setH (hs : List (Nat × HState)) (h : Nat) (s : HState) : List (Nat × HState) :=
   hs.map fun p => if p.1 = h then (h, s) else p
@@ -138,6 +143,8 @@ def step (s : St) : Label → Option St
   | .discard => if s.closing ∧ s.qhead < s.recvd then some { s with qhead := s.qhead + 1 } else none
   | .loopExit => if s.closing ∧ s.phase = .idle then some { s with phase := .gone } else none
   | .fireDisc => if s.closing ∧ s.phase = .gone then some { s with discFired := true, log := s.log ++ [.discEnter] } else none
+  | .otherSpawn n => some { s with other := s.other + n }
+  | .otherLeave => if s.other > 0 then some { s with other := s.other - 1 } else none
 
 inductive Reach : St → Prop
   | init : Reach {}
